@@ -3,7 +3,7 @@
 // and suffix differentials under coverage-guided byte mutation (periods to 1024, segment-built streams).
 use libfuzzer_sys::fuzz_target;
 use tacheck::fuzzdec::*;
-use tacheck::props::{c07, c08, c09, c15, c17};
+use tacheck::props::{c07, c08, c09, c15, c16, c17};
 
 fuzz_target!(|data: &[u8]| {
     if data.is_empty() {
@@ -12,11 +12,12 @@ fuzz_target!(|data: &[u8]| {
     let rest = &data[1..];
     static ONLY: std::sync::OnceLock<Option<u8>> = std::sync::OnceLock::new();
     let only = *ONLY.get_or_init(|| std::env::var("TACHECK_FUZZ_ONLY").ok().and_then(|s| s.parse().ok()));
-    let r = match only.unwrap_or(data[0] % 5) {
+    let r = match only.unwrap_or(data[0] % 6) {
         0 => run_plain(&decode_c07(rest), "C07", c07::check, &[]),
         1 => run_plain(&decode_c08(rest), "C08", c08::check, &[]),
         2 => run_plain(&decode_c09(rest), "C09", c09::check, &[]),
         3 => run_plain(&decode_c15(rest), "C15", c15::check, &[]),
+        5 => run_plain(&decode_c16(rest), "C16", c16::check, &[]),
         _ => run_plain(&decode_c17(rest), "C17", c17::check, &[]),
     };
     if let Err(f) = r {
